@@ -91,7 +91,8 @@ class C10(Prop):
                 "NV.C10.time_left_exact",
                 "NV.C10.handle_unique",
                 "NV.C10.deltas_ok",
-                "NV.C10.handles_fit_int"]
+                "NV.C10.handles_fit_int",
+                "NV.C10.time_left_fits_int"]
     consts = [("calloutCycleSize", "CALLOUT_CYCLE_SIZE")]
     const_headers = ["lib/efuns/options.h"]
     quick_n = 300
